@@ -301,6 +301,13 @@ def const_reach(ctx: Ctx, f: FuncInfo, env0: Dict[str, object], on_node, start: 
                             counts[t.id] = counts.get(t.id, 0) + 1
             _mod_consts[m.name] = {k: v.value for k, v in m.assigns.items() if isinstance(v, ast.Constant) and counts.get(k, 0) == 1
                                    and isinstance(v.value, (int, str, bool, type(None)))}
+            # names imported from a sibling module of the package that are literal constants there (`from .constants import NO_STARS`)
+            for alias in m.imports:
+                if alias in _mod_consts[m.name] or alias in counts:
+                    continue
+                v = ctx.vals.module_value(fn, ast.Name(id=alias, ctx=ast.Load()))
+                if isinstance(v, ast.Constant) and isinstance(v.value, (int, str, bool, type(None))):
+                    _mod_consts[m.name][alias] = v.value
         return _mod_consts[m.name]
 
     def view(fenv, st, fn: Optional[FuncInfo] = None) -> Dict[str, object]:
